@@ -296,6 +296,7 @@ fn main() {
     par_for(prepared.len() as u64 * nk, 1, |i| {
         let (pi, m) = ((i / nk) as usize, KNOWN_CHECKS[(i % nk) as usize]);
         let r = single_reference(&cli, &prepared[pi], m);
+        ctx.add_transitions(1);
         if r.is_none() {
             ctx.stat("single_runs_without_reference", 1);
         }
